@@ -26,8 +26,7 @@ macro("Wf1", ["o"], """
     and imp(instance_of(o, "FunctionProblem"),
             inner(o) == o and depth(o) == 0 and dirmax(o) == cast(o, "ref:FunctionProblem")._maximize
             and box(o) == cast(o, "ref:FunctionProblem")._bounds
-            and cast(o, "ref:FunctionProblem")._cache == None
-            and forall(lambda q: imp(in_chain(o, q), q == o), q="ref:Problem"))
+            and cast(o, "ref:FunctionProblem")._cache == None)
     and imp(instance_of(o, "StatsGatheringProblem"),
             cast(o, "ref:StatsGatheringProblem")._durations != None
             and dur_owner(cast(o, "ref:StatsGatheringProblem")._durations) == o
@@ -36,9 +35,7 @@ macro("Wf1", ["o"], """
             cast(o, "ref:ProblemWrapper")._inner != None
             and inner(o) == inner(cast(o, "ref:ProblemWrapper")._inner)
             and depth(o) == depth(cast(o, "ref:ProblemWrapper")._inner) + 1
-            and in_chain(o, cast(o, "ref:ProblemWrapper")._inner)
-            and forall(lambda q: imp(in_chain(o, q), q == o or in_chain(cast(o, "ref:ProblemWrapper")._inner, q)),
-                       q="ref:Problem"))
+            and in_chain(o, cast(o, "ref:ProblemWrapper")._inner))
 """)
 opaque("WfProblem", ["p"], """
     Wf1(p) and forall(lambda o: imp(in_chain(p, o), Wf1(o)), o="ref:Problem")
@@ -51,6 +48,10 @@ axiom("chain_trans", "forall(lambda o, q, r: imp(in_chain(o, q) and in_chain(q, 
       "o='ref:Problem', q='ref:Problem', r='ref:Problem')")
 axiom("chain_depth", "forall(lambda o, q: imp(in_chain(o, q), depth(q) <= depth(o) and imp(q != o, depth(q) < depth(o)) "
       "and inner(q) == inner(o)), o='ref:Problem', q='ref:Problem')")
+axiom("chain_unfold", "forall(lambda o, q: imp(allocated(o) and in_chain(o, q) and instance_of(o, 'ProblemWrapper'), "
+      "q == o or in_chain(cast(o, 'ref:ProblemWrapper')._inner, q)), o='ref:Problem', q='ref:Problem', pat=in_chain(o, q))")
+axiom("chain_leaf", "forall(lambda o, q: imp(in_chain(o, q) and instance_of(o, 'FunctionProblem'), q == o), "
+      "o='ref:Problem', q='ref:Problem', pat=in_chain(o, q))")
 axiom("chain_inner", "forall(lambda o: in_chain(o, inner(o)) and depth(inner(o)) == 0 and inner(inner(o)) == inner(o), "
       "o='ref:Problem')")
 # the two possible outcomes of an evaluation through any wrapper stack
